@@ -11,6 +11,7 @@ import io
 import itertools
 import os
 import tempfile
+import copy
 import warnings
 
 import numpy as np
@@ -27,7 +28,7 @@ RULE = (
     "give A's result. (b) explicit-state BFS over histories of %d estimator specs "
     "with the event alphabet {fit(D_a), fit(D_b), fit(D_c), predict, filter(D_a), grid, score(last dataset), scatter, profile, clone, set_params(**get_params()), switch to an "
     "alternative / back to the base parameter set through set_params, caller overwrites the arrays it passed earlier}, depth 3 (thorough 4), every history replayed on a fresh estimator (histories merged on (abstract state, concrete fingerprint) only for SplineCV), invariant: the "
-    "fingerprint equals that of the shortest history with the same abstract state. (c) %d single inconsistencies that must raise. "
+    "fingerprint equals that of the shortest history with the same abstract state; (b2) histories of depth 3 (thorough 5) over ONE instance of each of 9 parameter-only objects (BlockReduce x3, BlockMean x2, BlockKFold x2, BlockShuffleSplit, CheckerBoard) with the alphabet {call on D_a / D_b / D_c, switch a parameter and back, clone, params round trip, caller overwrites everything passed and received}: every call equals that of a fresh instance with the current parameters. (c) %d single inconsistencies that must raise. "
     "Non-trivial: every case."
     " Added axes: read-only / view / Fortran variants compared with round-off tolerance, scribble on outputs then repeat, same array objects with new contents, interference sequences A, B, A over 26 function families, parameter switch events with stale states, invalid table of about 150 inconsistent calls (shapes, component counts, both / neither of shape and spacing, inverted and out-of-range regions incl. UTM-scale and geographic ones)."
 )
@@ -368,6 +369,8 @@ def cases(tier, seed):
         yield dict(kind="interference", family=fam)
     for name in SPECS:
         yield dict(kind="history", spec=name, depth=3 if tier == "quick" else 4)
+    for name in OBJ_SPECS:
+        yield dict(kind="objhistory", spec=name, depth=3 if tier == "quick" else 5)
     for name in _invalid_list():
         yield dict(kind="invalid", name=name)
     for name in SPECS:
@@ -556,6 +559,46 @@ class _Dummy:
 
     def __call__(self, *a, **k):
         return _Dummy()
+
+
+# ------------------------------------------------------------------------------------------ histories of parameter-only objects
+# Reducers, cross-validators and the synthetic model keep NO fitted state: whatever was called before on the same instance, a call must
+# return what a fresh instance with the current parameters returns for the same arguments (round 8).
+def _obj_specs(vd):
+    return {
+        "BlockReduce(median)": (lambda: vd.BlockReduce(np.median, spacing=0.9), ("spacing", 0.9, 1.3), "filter"),
+        "BlockReduce(mean, shape, centres)": (lambda: vd.BlockReduce(np.mean, shape=(2, 3), center_coordinates=True), ("center_coordinates", True, False), "filter"),
+        "BlockReduce(average, region)": (lambda: vd.BlockReduce(np.average, spacing=1.1, region=(-3, 14, -6, 9), adjust="region"), ("adjust", "region", "spacing"), "filterw"),
+        "BlockMean": (lambda: vd.BlockMean(spacing=0.9), ("spacing", 0.9, 1.3), "filter"),
+        "BlockMean(weights)": (lambda: vd.BlockMean(spacing=0.9, uncertainty=False), ("uncertainty", False, True), "filterw"),
+        "BlockKFold": (lambda: vd.BlockKFold(spacing=1.0, n_splits=2, shuffle=True, random_state=0), ("n_splits", 2, 3), "split"),
+        "BlockKFold(no shuffle)": (lambda: vd.BlockKFold(shape=(2, 3), n_splits=2, balance=False), ("balance", False, True), "split"),
+        "BlockShuffleSplit": (lambda: vd.BlockShuffleSplit(spacing=1.0, n_splits=2, test_size=0.3, random_state=0), ("test_size", 0.3, 0.5), "split"),
+        "CheckerBoard": (lambda: vd.synthetic.CheckerBoard(region=(0, 4, 0, 2)), ("w_east", None, 1.0), "synthetic"),
+    }
+
+
+OBJ_SPECS = sorted(_obj_specs(_Dummy()))
+OBJ_EVENTS = ["call_a", "call_b", "call_c", "alt", "base", "clone", "params", "overwrite"]
+
+
+def _obj_call(obj, how, which, owned=None):
+    e, n, d0, d1 = _pts(which)
+    e, n, d0, d1 = e.copy(), n.copy(), d0.copy(), d1.copy()
+    w = 1.0 + (np.arange(e.size).reshape(e.shape) % 3) * 0.5
+    if owned is not None:
+        owned += [e, n, d0, d1, w]
+    if how == "filter":
+        out = obj.filter((e, n), (d0, d1) if which == "b" else d0)
+    elif how == "filterw":
+        out = obj.filter((e, n), d0, w)
+    elif how == "split":
+        out = [(tr.copy(), te.copy()) for tr, te in obj.split(np.column_stack([e.ravel(), n.ravel()]))]
+    else:
+        out = (obj.predict((e, n)), obj.grid(shape=(3, 4)) if which != "c" else obj.scatter(size=4, random_state=2), obj.profile((0, 0), (3, 1), 4) if which == "b" else None)
+    if owned is not None:
+        owned.append(out)
+    return out
 
 
 def _invalid_list():
@@ -790,6 +833,77 @@ def run(case, rec):
         got = call(rec, f)
         rec.check(raised(got), "inconsistent input accepted silently: %s -> %r" % (case["name"], type(got).__name__))
         rec.cls("invalid:" + case["name"].split(":")[0].split(".")[0])
+        return
+    if kind == "objhistory":
+        from sklearn.base import clone
+        mk, (pname, pbase, palt), how = _obj_specs(vd)[case["spec"]]
+
+        def setp(o, val):
+            # cross-validators are not scikit-learn estimators (no set_params): their parameters are plain attributes
+            if hasattr(o, "set_params"):
+                o.set_params(**{pname: val})
+            else:
+                setattr(o, pname, val)
+
+        def replay(hist):
+            """Replays the history on ONE instance; returns (canonical result of the last event if it was a call, oracle for it, parameter set)."""
+            obj, pset, owned, got, want = mk(), "base", [], None, None
+            for ev in hist:
+                got = want = None
+                if ev.startswith("call_"):
+                    try:
+                        got = _canon(_obj_call(obj, how, ev[-1], owned))
+                    except Exception as exc:  # noqa: BLE001
+                        got = "raised " + type(exc).__name__
+                    fresh = mk()
+                    setp(fresh, palt if pset == "alt" else pbase)
+                    try:
+                        want = _canon(_obj_call(fresh, how, ev[-1]))
+                    except Exception as exc:  # noqa: BLE001
+                        want = "raised " + type(exc).__name__
+                    rec.trans(2)
+                elif ev in ("alt", "base"):
+                    setp(obj, palt if ev == "alt" else pbase)
+                    pset = ev
+                elif ev == "clone":
+                    obj = clone(obj) if hasattr(obj, "get_params") else copy.deepcopy(obj)
+                elif ev == "params":
+                    if hasattr(obj, "get_params"):
+                        obj.set_params(**obj.get_params())
+                    else:
+                        repr(obj)
+                elif ev == "overwrite":
+                    for a in owned:
+                        _scribble(a)
+                else:
+                    raise ValueError(ev)
+            return got, want, pset
+
+        frontier, nhist, outcomes = [[]], 0, set()
+        while frontier:
+            nxt = []
+            for hist in frontier:
+                if len(hist) >= case["depth"]:
+                    continue
+                for ev in OBJ_EVENTS:
+                    h2 = hist + [ev]
+                    nxt.append(h2)
+                    if not ev.startswith("call_"):
+                        continue  # only histories that end in a call observe anything new (prefixes were checked at their own depth)
+                    got, want, pset = replay(h2)
+                    nhist += 1
+                    outcomes.add((pset, ev, hash(want)))
+                    if got != want:
+                        got2, _, _ = replay(h2)
+                        if got2 != got:
+                            raise RuntimeError("object history %s does not replay identically" % (h2,))
+                    rec.check(got == want, "%s: after history %s the call returns something else than a fresh instance with the same parameters (%s)"
+                              % (case["spec"], h2, "it raised" if isinstance(got, str) else "fresh raised" if isinstance(want, str) else "results differ"))
+            frontier = nxt
+        rec.count("object_histories", nhist)
+        rec.count("object_history_outcomes", len(outcomes))
+        rec.state([case["spec"], sorted(map(repr, outcomes))])
+        rec.cls("objhistory/%s/outcomes=%d" % (case["spec"], len(outcomes)))
         return
     if kind == "history":
         spec = case["spec"]
